@@ -8,13 +8,17 @@ from hypothesis import strategies as st
 
 from ..core import HarnessError, require, require_close, require_equal
 from ..gen.grids import _f, build_grid, grid_meta, grid_spec
-from ..gen.grids_extra import build_fractured, faces_of_cells, frac_spec, nodes_of_faces
+from ..gen.grids_extra import (build_fractured, build_perm1d, faces_of_cells, frac_spec, nodes_of_faces, perm1d_meta,
+                               perm1d_spec)
 from .c19 import check_geometry
 
 ID = "C23"
 RULE = (
-    "Hypothesis draws a function and its arguments. refine1d: 1-d Cartesian / tensor grids rigidly embedded in 3-d, or "
-    "the 1-d fracture grids of a fractured Cartesian md-grid (split at intersections), ratio 2-5. remesh1d: embedded "
+    "Hypothesis draws a function and its arguments. refine1d: 1-d Cartesian / tensor grids rigidly embedded in 3-d, "
+    "hand-assembled 1-d grids (pp.Grid from face_nodes / cell_faces) whose cells, nodes and faces are numbered by random "
+    "permutations (cells not monotone along the line), with either sign convention, embedded by a rigid motion, or "
+    "the 1-d fracture grids of a fractured Cartesian md-grid (split at intersections), ratio 2-5; the children of "
+    "every parent must tile it (inside, disjoint interiors, no gap). remesh1d: embedded / permuted "
     "1-d grids, 2-10 new nodes. reftri: structured triangle grids with 2-40 cells, interior nodes perturbed, optionally "
     "embedded. structref: structured_refinement of nested pairs (1-d grid and its refine_grid_1d; structured triangle / "
     "tetrahedral grids with n and k*n cells per direction, k=2,3, under a common rigid motion). extrude: a point, 1-d "
@@ -41,10 +45,10 @@ LEVEL_NOTE = ("Grids of at most a few hundred cells. Triangle refinement is only
               "Finds violations, does not prove absence.")
 DESIGN_REF = "DESIGN.md section 4, C23"
 ASSUMPTIONS = ["grids to be extruded lie in the xy-plane (documented precondition)",
-               "1-d grids to be extruded are TensorGrids (signature of _extrude_1d)",
+               "1-d grids to be extruded are TensorGrids (signature of _extrude_1d); permuted 1-d grids are not extruded",
                "remesh_1d is applied to 1-d grids without internal boundaries (docstring: use with care otherwise)"]
 FNS = ["refine1d", "remesh1d", "reftri", "reftri", "structref", "extrude", "extrude", "extrude"]
-REQUIRED = {"refine1d": 0.05, "remesh1d": 0.05, "structref": 0.05, "extrude": 0.15, "extrude-0d": 0.01,
+REQUIRED = {"1d-permuted-cells": 0.03, "1d-permuted-nodes": 0.03, "refine1d": 0.05, "remesh1d": 0.05, "structref": 0.05, "extrude": 0.15, "extrude-0d": 0.01,
             "extrude-1d": 0.03, "extrude-2d": 0.05, "extrude-down": 0.03, "extrude-offset": 0.03}
 
 
@@ -59,14 +63,20 @@ def _spec(draw, tier):
     fn = draw(st.sampled_from(FNS))
     s = {"fn": fn}
     if fn == "refine1d":
-        if draw(st.integers(0, 3)) == 0:
+        src = draw(st.sampled_from(["frac", "grid", "p1d", "p1d"]))
+        if src == "frac":
             s["frac"] = draw(frac_spec(dims=(2,)))
             s["which"] = draw(st.integers(0, 5))
-        else:
+        elif src == "grid":
             s["grid"] = draw(grid_spec(dims=(1,)))
+        else:
+            s["p1d"] = draw(perm1d_spec())
         s["ratio"] = draw(st.integers(2, 5))
     elif fn == "remesh1d":
-        s["grid"] = draw(grid_spec(dims=(1,)))
+        if draw(st.booleans()):
+            s["p1d"] = draw(perm1d_spec())
+        else:
+            s["grid"] = draw(grid_spec(dims=(1,)))
         s["num_nodes"] = draw(st.integers(2, 10))
     elif fn == "reftri":
         s["grid"] = draw(grid_spec(dims=(2,), kinds=("tri",), max_n=4))
@@ -79,7 +89,10 @@ def _spec(draw, tier):
     elif fn == "structref":
         kind = draw(st.sampled_from(["1d", "1d", "tri", "tri", "tri", "tet"]))
         if kind == "1d":
-            s["grid"] = draw(grid_spec(dims=(1,)))
+            if draw(st.booleans()):
+                s["p1d"] = draw(perm1d_spec())
+            else:
+                s["grid"] = draw(grid_spec(dims=(1,)))
             s["ratio"] = draw(st.integers(2, 5))
         else:
             g = draw(grid_spec(dims=(2,) if kind == "tri" else (3,), kinds=(kind,), perturb=False, affine=False,
@@ -221,8 +234,14 @@ def check(s):
     fn = s["fn"]
     labels = [fn]
 
-    if fn in ("refine1d", "remesh1d") or (fn == "structref" and s["grid"]["dim"] == 1):
-        if "frac" in s:
+    if fn in ("refine1d", "remesh1d") or (fn == "structref" and ("p1d" in s or s["grid"]["dim"] == 1)):
+        if "p1d" in s:
+            g = build_perm1d(s["p1d"])
+            meta = perm1d_meta(s["p1d"])
+            measure = meta["measure"]
+            labels += meta["labels"]
+            check_geometry(g, measure, "base1d-")  # the hand-assembled grid itself is a valid grid
+        elif "frac" in s:
             sds = build_fractured(s["frac"]).subdomains(dim=1)
             if not sds:
                 return {"labels": labels + ["frac-without-fracture"], "nontrivial": False}
@@ -242,7 +261,9 @@ def check(s):
                     f"{h.num_cells} cells / {h.num_nodes} nodes for num_nodes={s['num_nodes']}")
             check_geometry(h, measure, "remesh-")
             # same domain: the end points are the end points of the old grid
-            ends = old_nodes[:, [0, -1]]
+            span = np.linalg.norm(old_nodes[:, :, None] - old_nodes[:, None, :], axis=0)
+            i0, i1 = np.unravel_index(int(np.argmax(span)), span.shape)  # the two extreme nodes of the old grid
+            ends = old_nodes[:, [i0, i1]]
             he = h.nodes[:, [int(np.argmin(h.nodes.T @ (ends[:, 1] - ends[:, 0]))),
                              int(np.argmax(h.nodes.T @ (ends[:, 1] - ends[:, 0])))]]
             require_close(he, ends, "remesh-endpoints", rtol=1e-9, scale=scale, what="end points of the remeshed grid")
@@ -262,6 +283,25 @@ def check(s):
             require(len(hit) == 1, "refine1d-nesting", f"centre of new cell {k} lies in {len(hit)} old cells")
             parent[k] = hit[0]
         _check_children(g, h, parent, r, "refine1d-")
+        # the children tile their parent: in the parent's parameter t in [0, 1] the child intervals lie inside,
+        # have pairwise disjoint interiors and cover it (sorted: 0 = a_1 < b_1 = a_2 < ... < b_r = 1)
+        hverts = _cell_vertices(h)
+        for c in range(g.num_cells):
+            a, b = g.nodes[:, verts[c][0]], g.nodes[:, verts[c][1]]
+            d = b - a
+            iv = []
+            for k in np.flatnonzero(parent == c):
+                ts = sorted(float(np.dot(h.nodes[:, v] - a, d) / np.dot(d, d)) for v in hverts[k])
+                off = max(float(np.linalg.norm(h.nodes[:, v] - a - np.dot(h.nodes[:, v] - a, d) / np.dot(d, d) * d))
+                          for v in hverts[k])
+                require(off <= 1e-9 * scale, "refine1d-tiling", f"child {k} of cell {c} leaves the parent's line")
+                iv.append(ts)
+            iv.sort()
+            flat = np.array(iv)
+            require(np.all(flat[:, 0] >= -1e-9) and np.all(flat[:, 1] <= 1 + 1e-9), "refine1d-tiling",
+                    f"children of cell {c} reach outside the parent: {iv}")
+            require(abs(flat[0, 0]) <= 1e-9 and abs(flat[-1, 1] - 1) <= 1e-9 and np.all(np.abs(flat[1:, 0] - flat[:-1, 1]) <= 1e-9),
+                    "refine1d-tiling", f"children of cell {c} overlap or leave a gap: {iv}")
         require_close(h.cell_volumes, g.cell_volumes[parent] / r, "refine1d-equal-parts", rtol=1e-9,
                       what="children are equal parts of the parent")
         if fn == "structref":
